@@ -60,6 +60,7 @@ structure PBlk (p0 : PImg) (live : Nat) (allowed covered : List Nat) (lo nd : Na
   pager : PagerActs acts
   setpm : OnlySetPm (memUpds acts)
   lastpm : lastPm (memUpds acts) ps.pm = ps'.pm
+  lastbm : lastBm (memUpds acts) ps.bm = ps'.bm
   sk : SameKey p0.hdr ps'.pm
   np : min ps'.bm ps'.pm.nextPage = nd'
   mono : nd ≤ nd'
@@ -84,6 +85,7 @@ theorem PBlk.append {n1 n2 n3 : Nat} {s1 s2 s3 : PS} {a b : List Action} {e1 e2 
   pager := ha.pager.append hb.pager
   setpm := by rw [memUpds_append_noFail _ _ ha.nofail]; exact ha.setpm.append hb.setpm
   lastpm := by rw [memUpds_append_noFail _ _ ha.nofail, lastPm_append, ha.lastpm, hb.lastpm]
+  lastbm := by rw [memUpds_append_noFail _ _ ha.nofail, lastBm_append, ha.lastbm, hb.lastbm]
   sk := hb.sk
   np := hb.np
   mono := Nat.le_trans ha.mono hb.mono
@@ -106,6 +108,7 @@ theorem PBlk.nil {nd : Nat} {ps : PS} (hsk : SameKey p0.hdr ps.pm) (hnp : min ps
   pager := by intro a ha; simp at ha
   setpm := by intro u hu; simp [memUpds] at hu
   lastpm := rfl
+  lastbm := rfl
   sk := hsk
   np := hnp
   mono := Nat.le_refl _
@@ -133,7 +136,7 @@ theorem PBlk.steps {nd : Nat} {ps : PS} (hsk : SameKey p0.hdr ps.pm) (hnp : min 
     induction S with
     | nil => rfl
     | cons s S ih => simp [failOf, ih]
-  refine { nofail := hnf, pager := ?_, setpm := by rw [hmu]; intro u hu; simp at hu, lastpm := by rw [hmu]; rfl,
+  refine { nofail := hnf, pager := ?_, setpm := by rw [hmu]; intro u hu; simp at hu, lastpm := by rw [hmu]; rfl, lastbm := by rw [hmu]; rfl,
            sk := hsk, np := hnp, mono := Nat.le_refl _, safe := ?_, post := ?_, vol := ?_ }
   · intro a ha
     obtain ⟨s, hs, rfl⟩ := List.mem_map.mp ha
@@ -185,10 +188,13 @@ theorem steps_flushed_bm (fs : FS) (pre : List Step) (pm : Meta) (bm : Nat) :
   generalize fs.steps pre = g
   simp [flushSteps, FS.steps, FS.step, FS.pv, applyEffs_append, applyEffs, applyEff]
 
-/-- `Pager::allocate_page` inside a compaction: harmless at every step; afterwards the new frontier is durable -/
-theorem pblk_alloc {nd : Nat} (ps : PS) (hsk : SameKey p0.hdr ps.pm) (hnp : min ps.bm ps.pm.nextPage = nd) :
-    PBlk p0 live allowed covered lo nd ps (allocA ps).1 [] (nd + 1) (allocA ps).2.1 ∧ (allocA ps).2.2 = nd ∧
-    EndsFlushed (allocA ps).1 (allocA ps).2.1.pm := by
+/-- `Pager::allocate_page` inside a compaction: harmless at every step; afterwards the new frontier is
+    durable.  The class may start below the in-memory frontier (after a failed allocation the
+    memory is ahead of the file). -/
+theorem pblk_alloc {nd : Nat} (ps : PS) (hsk : SameKey p0.hdr ps.pm) (hnp : nd ≤ min ps.bm ps.pm.nextPage) :
+    PBlk p0 live allowed covered lo nd ps (allocA ps).1 [] (min ps.bm ps.pm.nextPage + 1) (allocA ps).2.1 ∧
+    (allocA ps).2.2 = min ps.bm ps.pm.nextPage ∧
+    EndsFlushed (allocA ps).1 (allocA ps).2.1.pm (allocA ps).2.1.bm := by
   obtain ⟨hpid, hmin, hsame, hbmle, hnf, pre, hpre, hio⟩ := allocA_form ps
   have hsk' : SameKey p0.hdr (allocA ps).2.1.pm := hsk.trans hsame
   have hS : ∀ s ∈ ioSteps (allocA ps).1, CStepOK p0 live allowed covered lo nd s := by
@@ -204,22 +210,21 @@ theorem pblk_alloc {nd : Nat} (ps : PS) (hsk : SameKey p0.hdr ps.pm) (hnp : min 
         omega
       · simp [CStepOK]
   have hfl : ∀ fs : FS, (fs.steps (ioSteps (allocA ps).1)).pj = [] ∧
-      (fs.steps (ioSteps (allocA ps).1)).pd.hdr = (allocA ps).2.1.pm :=
-    fun fs => steps_flushed fs _ _ ⟨pre, _, hio⟩
-  have hflb : ∀ fs : FS, (fs.steps (ioSteps (allocA ps).1)).pd.bm = (allocA ps).2.1.bm := by
-    intro fs; rw [hio]; exact steps_flushed_bm fs pre _ _
-  refine ⟨{ nofail := hnf, pager := pagerActs_alloc ps, setpm := onlySetPm_alloc ps, lastpm := lastPm_alloc ps _,
-            sk := hsk', np := by rw [hmin, hnp], mono := Nat.le_succ _,
-            safe := ?_, post := ?_, vol := ?_ }, by rw [hpid, hnp], ⟨pre, _, hio⟩⟩
+      (fs.steps (ioSteps (allocA ps).1)).pd.hdr = (allocA ps).2.1.pm ∧
+      (fs.steps (ioSteps (allocA ps).1)).pd.bm = (allocA ps).2.1.bm :=
+    fun fs => steps_flushed fs _ _ _ ⟨pre, hio⟩
+  refine ⟨{ nofail := hnf, pager := pagerActs_alloc ps, setpm := onlySetPm_alloc ps, lastpm := lastPm_alloc ps _, lastbm := lastBm_alloc ps _,
+            sk := hsk', np := hmin, mono := by omega,
+            safe := ?_, post := ?_, vol := ?_ }, hpid, ⟨pre, hio⟩⟩
   · intro fs h
     exact safeAlong_mono (cstep_block _ fs h hS) (fun g hg => allImgsL_mono live g _ _ hg (fun p hp => ⟨_, hp⟩))
   · intro fs h
     have hlast := safeAlong_last (cstep_block _ fs h hS)
-    obtain ⟨hpj, hhdr⟩ := hfl fs
+    obtain ⟨hpj, hhdr, hbm⟩ := hfl fs
     intro p' hp'
     rw [hpj] at hp'
     rw [isImgL_nil _ _ _ hp']
-    exact (allImgsL_pd live _ _ hlast).raise (Nat.le_succ _) (by rw [hhdr]; omega) (by rw [hflb fs]; omega)
+    exact (allImgsL_pd live _ _ hlast).raise (by omega) (by rw [hhdr]; omega) (by rw [hbm]; omega)
   · intro fs
     rw [pv_steps]
     apply st_allocEffs
@@ -240,6 +245,12 @@ theorem pblk_alloc {nd : Nat} (ps : PS) (hsk : SameKey p0.hdr ps.pm) (hnp : min 
       exact this pre hpre e h
     · simp [flushSteps, effsOf] at h
       rcases h with rfl | rfl <;> trivial
+
+theorem pblk_alloc_eq {nd : Nat} (ps : PS) (hsk : SameKey p0.hdr ps.pm) (hnp : min ps.bm ps.pm.nextPage = nd) :
+    PBlk p0 live allowed covered lo nd ps (allocA ps).1 [] (nd + 1) (allocA ps).2.1 ∧ (allocA ps).2.2 = nd ∧
+    EndsFlushed (allocA ps).1 (allocA ps).2.1.pm (allocA ps).2.1.bm := by
+  have := pblk_alloc (p0 := p0) (live := live) (lo := lo) (allowed := allowed) (covered := covered) (nd := nd) ps hsk (by omega)
+  rwa [hnp] at this
 
 /-- one page write of the class -/
 theorem pblk_write {nd : Nat} {ps : PS} (hsk : SameKey p0.hdr ps.pm) (hnp : min ps.bm ps.pm.nextPage = nd) (e : PEff) (pid : Nat)
@@ -262,7 +273,7 @@ theorem pblk_segParts (key need : Nat) (edges : List Nat) (hlo : lo ≤ key) :
         (js.map (fun j => PEff.segPart key j need edges)) (nd + js.length) (segPartsA key need edges ps js).2
   | [], nd, ps, hsk, hnp, _ => by simpa [segPartsA] using PBlk.nil (live := live) (lo := lo) (allowed := allowed) (covered := covered) hsk hnp
   | j :: js, nd, ps, hsk, hnp, hk => by
-    obtain ⟨ba, hpid, _⟩ := pblk_alloc (p0 := p0) (live := live) (lo := lo) (allowed := allowed) (covered := covered) ps hsk hnp
+    obtain ⟨ba, hpid, _⟩ := pblk_alloc_eq (p0 := p0) (live := live) (lo := lo) (allowed := allowed) (covered := covered) ps hsk hnp
     have bw := pblk_write (p0 := p0) (live := live) (lo := lo) (allowed := allowed) (covered := covered) ba.sk ba.np
       (.segPart key j need edges) (allocA ps).2.2 ⟨hlo, by omega⟩
     have br := pblk_segParts key need edges hlo js (nd + 1) (allocA ps).2.1 ba.sk ba.np (by omega)
